@@ -30,7 +30,7 @@ theorem Num.act (h : Num (sm x c)) {v : BV} {ws : List Msg} {gs : List BEv} (st 
   | offerPark b r hi => exact h.offerPark b r hi
   | unparkQ b hp => exact h.unparkQ b hp
   | bindNext b r hq => exact h.bindNext b r hq
-  | reply k b acc hk ho => exact h.reply k b acc hk
+  | reply k b acc hk ha ho => exact h.reply k b acc hk
   | dropReq k b hk => exact h.dropReq k b
   | dropMux => exact h.dropMux
 
